@@ -27,7 +27,10 @@ HOSTILE = ['"abc', "'", '"""', "(", ")", "[", "]", "1...", "...", "…", "--1", 
            "-99999999999999999999", "NaN", "Infinity", "-inf", "\x00", "ü", "€", "", " ", "class", "None", "lambda", "*",
            "+", "?", "(?P<", "[a-", "\\", "a{2,1}", "%", "1e400", "1,2", "x" * 70, "\n", "\t", "\\x", '"\\x"', "'\\N{'",
            "1:2:3", "tab", "any", "none", "0", "-1", "65536", "1.5", ",", ".", ";", "#", "a b", "f,", "é=1", "count",
-           "DD.MM", "%%", "{", "2:1", "x", "X", "is_valid", "is valid", "format", "Header", "encoding", "__dict__", "_header"]
+           "DD.MM", "%%", "{", "2:1", "x", "X", "is_valid", "is valid", "format", "Header", "encoding", "__dict__", "_header",
+           # legal Python tokens / codec names / expressions that are not what cutplace expects
+           "b'a'", "\udc80", "a{99999999999999}", "hex", "rot13", "base64", "idna", "color < 100 // (count - 2)",
+           "id < (5, 4)[count]", "id < 10 ** (10 ** count)", "id.x > 1", "1 if count else x"]
 RULE_TEXT = (
     "fault enumeration: sweep of (base CID or data table, row, column, hostile value) single-cell replacements (see "
     "sweep_note) plus seeded scenarios with two hostile cells at once or one container fault (truncate / bitflip / "
@@ -76,11 +79,12 @@ BASES = {
     "fixed": {
         "cid": [["d", "format", "fixed"], ["d", "encoding", "ascii"], ["d", "line delimiter", "any"], ["d", "header", "0"],
                 ["d", "allowed characters", ""], ["d", "decimal separator", "."], ["d", "thousands separator", ","],
+                ["f", "flag", "y", "", "1", "Choice", "y,n"],
                 ["f", "id", "7", "", "3", "Integer", "0...999"], ["f", "amount", "1.5", "X", "6", "Decimal", ""],
                 ["f", "color", "red", "", "5", "Choice", "red,green"], ["f", "day", "1999-12-31", "X", "10", "DateTime", "YYYY-MM-DD"],
                 ["f", "note", "", "X", "4", "Text", ""],
                 ["c", "id is unique", "IsUnique", "id"], ["c", "some colors", "DistinctCount", "color >= 1"]],
-        "data": [["1", "1.5", "red", "1999-12-31", "x"], ["22", "", "green", "", ""]],
+        "data": [["y", "1", "1.5", "red", "1999-12-31", "x"], ["n", "22", "", "green", "", ""], ["y", "3", "", "red", "", ""]],
     },
     "excel": {
         "cid": [["d", "format", "excel"], ["d", "sheet", "1"], ["d", "header", "0"], ["d", "allowed characters", "…255"],
@@ -107,12 +111,12 @@ def _spec_for(base_name):
     return {"format": fmt, "line_delimiter": {"delimited": "lf", "fixed": "any"}.get(fmt, "lf"), "fields": []}
 
 
-def _store_data(fs, base_name, table, path):
+def _store_data(fs, base_name, table, path, eol="\n"):
     if base_name == "delimited":
         fs.store(path, lib.render_delimited(table, ";", '"', "\n").encode("utf-8", "replace"))
     elif base_name == "fixed":
-        widths = [3, 6, 5, 10, 4]
-        text = "".join("".join(cell[:width].ljust(width) for cell, width in zip(row, widths)) + "\n" for row in table)
+        widths = [1, 3, 6, 5, 10, 4]
+        text = "".join("".join(cell[:width].ljust(width) for cell, width in zip(row, widths)) + eol for row in table)
         fs.store(path, text.encode("ascii", "replace"))
     elif base_name == "excel":
         fs.store(path, xlsx.encode([xlsx.text_table(table)]))
@@ -126,7 +130,15 @@ def _data_path(base_name):
 
 
 def _xml_safe(text):
-    return all(char in "\t\n" or ord(char) >= 32 for char in text)
+    return all(char in "\t\n" or 32 <= ord(char) < 0xD800 or 0xE000 <= ord(char) for char in text)
+
+
+def _utf8(text):
+    try:
+        text.encode("utf-8")
+        return True
+    except UnicodeEncodeError:
+        return False
 
 
 # ---- sweep ----------------------------------------------------------------------------------------
@@ -184,7 +196,7 @@ def generate(seed, tier):
     base_name = swarm.choice(BASE_NAMES)
     base = BASES[base_name]
     scenario = {"base": base_name, "io": simfs.IoConfig.draw(swarm), "cells": [], "container": None,
-                "cid_storage": swarm.choice(["rows", "csv", "ods", "xlsx"])}
+                "cid_storage": swarm.choice(["rows", "csv", "ods", "xlsx"]), "eol": swarm.choice(["\n", "\n", "\r", "\r\n"])}
     roll = swarm.random()
     if roll < 0.45:
         for _ in range(2):
@@ -286,12 +298,12 @@ def execute(scenario):
     texts = [cell for row in cid_rows for cell in row]
     if storage in ("ods", "xlsx") and not all(_xml_safe(text) for text in texts):
         storage = "csv"
-    if storage == "csv" and any("\x00" in text for text in texts):
-        storage = "rows"  # the csv module refuses NUL before cutplace sees it: use the programmatic route
+    if storage == "csv" and any("\x00" in text or not _utf8(text) for text in texts):
+        storage = "rows"  # the csv module refuses NUL (and utf-8 lone surrogates) before cutplace sees it
     data_path = _data_path(base_name)
     if not all(_xml_safe(cell) for row in data_rows for cell in row) and base_name in ("excel", "ods"):
         data_rows = [[cell if _xml_safe(cell) else "?" for cell in row] for row in data_rows]
-    _store_data(fs, base_name, data_rows, data_path)
+    _store_data(fs, base_name, data_rows, data_path, scenario.get("eol", "\n"))
     cid_path = {"rows": None, "csv": "cid.csv", "ods": "cid.ods", "xlsx": "cid.xlsx"}[storage]
     if storage == "csv":
         fs.store(cid_path, lib.render_delimited(cid_rows, ",", '"', "\n").encode("utf-8", "replace"))
